@@ -621,11 +621,23 @@ impl Session {
             )
         })?;
 
-        // Commit RDF store pending operations
-        #[cfg(feature = "rdf")]
-        self.rdf_store.commit_tx(tx_id);
-
-        self.tx_manager.commit(tx_id).map(|_| ())
+        // Validate first: nothing may be published before the manager accepts the commit
+        match self.tx_manager.commit(tx_id) {
+            Ok(_) => {
+                // Commit RDF store pending operations
+                #[cfg(feature = "rdf")]
+                self.rdf_store.commit_tx(tx_id);
+                Ok(())
+            }
+            Err(e) => {
+                // A refused commit must leave none of the transaction's writes behind
+                self.store.discard_uncommitted_versions(tx_id);
+                #[cfg(feature = "rdf")]
+                self.rdf_store.rollback_tx(tx_id);
+                let _ = self.tx_manager.abort(tx_id);
+                Err(e)
+            }
+        }
     }
 
     /// Aborts the current transaction.
